@@ -241,14 +241,23 @@ public:
       CRAB_ERROR("discrete_domain::rename with input vectors of different sizes");
     }
 
+    // The renaming is simultaneous: `to` can mention elements of
+    // `from` (e.g. swapping two variables), so all the renamed
+    // elements are removed before any new name is added.
+    std::vector<unsigned> renamed;
     for(unsigned i=0, sz=from.size(); i<sz; ++i) {
       if (from[i] == to[i]) {
 	continue;
       }
       if (contain(from[i])) {
-	this->operator-=(from[i]);
-	this->operator+=(to[i]);
+	renamed.push_back(i);
       }
+    }
+    for (unsigned i: renamed) {
+      this->operator-=(from[i]);
+    }
+    for (unsigned i: renamed) {
+      this->operator+=(to[i]);
     }
   }
   
@@ -460,14 +469,23 @@ public:
       CRAB_ERROR("set domain::rename with input vectors of different sizes");
     }
 
+    // The renaming is simultaneous: `to` can mention elements of
+    // `from` (e.g. swapping two variables), so all the renamed
+    // elements are removed before any new name is added.
+    std::vector<unsigned> renamed;
     for(unsigned i=0, sz=from.size(); i<sz; ++i) {
       if (from[i] == to[i]) {
 	continue;
       }
       if (contain(from[i])) {
-	this->operator-=(from[i]);
-	this->operator+=(to[i]);
+	renamed.push_back(i);
       }
+    }
+    for (unsigned i: renamed) {
+      this->operator-=(from[i]);
+    }
+    for (unsigned i: renamed) {
+      this->operator+=(to[i]);
     }
   }
   
